@@ -1,6 +1,9 @@
 """Per-property checks.  Each returns the process exit code."""
 import json
 import os
+import re
+import shutil
+import subprocess
 import time
 
 import vlib
@@ -1226,3 +1229,124 @@ def check_c19(tier, replay):
                  "max_len": 40, "sample_paths": 150}]
     return account_check("C19", tier, replay, inst, rule, ACCOUNT_ASSUME, level="translation_validation",
                          path_extra=extra)
+
+
+def validate_trace(module, cfg_name, trace_path, name, timeout_s=900):
+    """Trace validation: TRACE=<file> tlc <module>; returns (accepted, states, detail)."""
+    meta = os.path.join(vlib.WORK, "tlc_" + name)
+    shutil.rmtree(meta, ignore_errors=True)
+    env = dict(os.environ)
+    env["TRACE"] = trace_path
+    env["JAVA_TOOL_OPTIONS"] = "-Xss1g -Dtlc2.tool.queue.IStateQueue=StateDeque"
+    cmd = ["timeout", str(timeout_s), "java", "-XX:+UseParallelGC", "-Xmx4g", "-cp", vlib.TLA_JAR, "tlc2.TLC",
+           "-metadir", meta, "-cleanup", "-noGenerateSpecTE", "-workers", "1",
+           "-config", os.path.join(vlib.SPEC, cfg_name), module + ".tla"]
+    p = subprocess.run(cmd, cwd=vlib.SPEC, env=env, stdout=subprocess.PIPE, stderr=subprocess.STDOUT, text=True)
+    shutil.rmtree(meta, ignore_errors=True)
+    out = p.stdout
+    m = re.search(r"(\d+) states generated, (\d+) distinct states found", out)
+    states = int(m.group(2)) if m else 0
+    rej = [l for l in out.splitlines() if "TRACE-REJECTED" in l]
+    if rej:
+        return False, states, rej[0]
+    if p.returncode != 0 or "Model checking completed. No error has been found" not in out:
+        raise ToolError("trace validation of %s failed (rc=%d):\n%s" % (module, p.returncode, out[-3000:]))
+    return True, states, ""
+
+
+@register("C10")
+def check_c10(tier, replay):
+    prop = "C10"
+    t0 = time.time()
+    wd = vlib.workdir("%s_%s" % (prop, tier))
+    scratch = vlib.scratch_base(prop)
+    known = vlib.known_keys(prop)
+    devs = sorted(d for d in ("AgeNonceUnbound",) if d in known)
+    # (1) the abstract design
+    cfg = vlib.render_cfg("MC_Crypto.cfg", {"EmitCases": "FALSE", "Deviations": "{}"},
+                          os.path.join(wd, "prop.cfg"))
+    r = vlib.run_tlc("MC_Crypto", cfg, prop + "p", timeout_s=600)
+    if r.violated:
+        raise ToolError("Crypto spec violates %s" % r.violated)
+    for a in ("Enc", "DoTamper", "DoDec"):
+        if r.coverage.get(a, (0, 0))[0] == 0:
+            raise ToolError("action %s never taken in Crypto model" % a)
+    # (2) every class of decryption attempt, as implementation tests
+    cases = []
+    if replay:
+        v = json.load(open(replay))
+        d = v.get("detail", v)
+        if "case" in d:
+            cases = [d["case"]]
+    if not cases:
+        for d in devs:
+            cfg = vlib.render_cfg("MC_Crypto.cfg", {"EmitCases": "FALSE", "Deviations": dev_set([d])},
+                                  os.path.join(wd, "dev.cfg"))
+            rd = vlib.run_tlc("MC_Crypto", cfg, prop + "d", timeout_s=600, coverage=False)
+            if not rd.violated:
+                raise ToolError("deviation %s no longer breaks the Crypto model" % d)
+        cfg = vlib.render_cfg("MC_Crypto.cfg", {"EmitCases": "TRUE", "Deviations": dev_set(devs)},
+                              os.path.join(wd, "emit.cfg"))
+        txt = open(cfg).read().replace("  TamperFails\n", "")
+        open(cfg, "w").write(txt)
+        vlib.run_tlc("MC_Crypto", cfg, prop + "e", timeout_s=600, coverage=False, workers=1,
+                     tag_sink=lambda tag, obj: cases.append(obj) if tag == "CASE" else None)
+        uniq = {json.dumps(c, sort_keys=True): c for c in cases}
+        cases = [uniq[k] for k in sorted(uniq)]
+    if not cases:
+        raise ToolError("TLC emitted no cases")
+    vlib.cargo_build()
+    pfile = os.path.join(wd, "cases.ndjson")
+    with open(pfile, "w") as f:
+        for c in cases:
+            f.write(json.dumps(c) + "\n")
+    trace = os.path.join(wd, "nonces.ndjson")
+    ops = "40" if tier == "quick" else "400"
+    summ = vlib.run_harness([vlib.harness_bin("replay"), "crypto", pfile, scratch, trace, tier, ops,
+                             str(vlib.seed())], timeout_s=3000, env={"VERIF_KNOWN": ",".join(sorted(known))})
+    violations = list(summ["violations"])
+    # (3) the recorded encryptions must be a behaviour of Enc (NonceFresh)
+    ok, tstates, detail = validate_trace("CryptoTrace", "CryptoTrace.cfg", trace, prop + "t")
+    nlines = sum(1 for _ in open(trace))
+    if ok and not replay:
+        # binding self-test: the same trace with one line repeated must be rejected
+        lines = open(trace).read().splitlines()
+        bad = os.path.join(wd, "nonces_dup.ndjson")
+        open(bad, "w").write("\n".join(lines + [lines[len(lines) // 2]]) + "\n")
+        if validate_trace("CryptoTrace", "CryptoTrace.cfg", bad, prop + "t")[0]:
+            raise ToolError("CryptoTrace accepted a trace with a repeated (key, nonce)")
+    if not ok:
+        violations.append({"summary": "a (key, nonce) pair is used for two different encryptions: " + detail,
+                           "detail": {"trace": detail}})
+    if replay:
+        for x in violations:
+            log("REPLAY-DIVERGENCE " + x["summary"][:1500])
+        return 1 if violations else 0
+    cover = {
+        "states": r.distinct, "transitions": r.generated,
+        "traces_validated_against_impl": summ["steps"] + nlines,
+        "evaluations": summ["evaluated"], "distinct_nontrivial": len(set(summ["nontrivial_keys"])),
+        "rule": "Crypto.tla: a blob decrypts to its plaintext iff key, cipher and every part of the blob are "
+                "those of the encryption (RoundTrip, TamperFails, KeyBound), and Enc never reuses a nonce under a "
+                "key (NonceFresh); TLC checks these on all states and emits every class of decryption attempt "
+                "(cipher x decrypting cipher x same/other key x tamper class). Each class is run on "
+                "sos_core::crypto::Cipher for plaintexts of 0..4096 bytes (3 MiB in thorough) through the binary "
+                "encoding of AeadPack: flipNonce = each bit of the nonce, flipCt = each bit of ciphertext+tag "
+                "(sampled above 4096 bits in quick), truncate = 1..24 bytes off either end, extend, nonce / "
+                "ciphertext swapped with a sibling blob under the same key, other nonce length, empty "
+                "ciphertext; any plaintext returned for a refused class, any failure of an intact round trip "
+                "and any panic is a violation. Argon2id and Balloon derivations over passwords x salts x seeds "
+                "must be deterministic and pairwise distinct; a built vault verifies only its own password. "
+                "The (key epoch, nonce) of every blob found in vaults and event logs of a random account "
+                "history on both backends (harvested before each compaction / password change and at the "
+                "end) is validated as a trace of Enc by CryptoTrace.tla.",
+        "samples": summ["samples"][:3], "exhaustive": tier != "quick", "cases": len(cases),
+        "counters": dict(summ["counters"], trace_lines=nlines, trace_states=tstates),
+        "deviations_modelled": devs,
+    }
+    assumptions = ["AES-GCM / XChaCha20-Poly1305 forgery resistance itself is assumed (RustCrypto); the check "
+                   "decides that the code passes nonce, key and full ciphertext+tag to it and surfaces failure",
+                   "nonce freshness is decided on recorded executions, not for the RNG in general"]
+    vlib.write_evidence(prop, tier, "model_checking", cover, assumptions, time.time() - t0, len(violations))
+    known_hits = [dict(k2, **known[k2["key"]]) for k2 in summ["known"] if k2["key"] in known]
+    return vlib.finish(prop, violations, known_hits)
